@@ -758,9 +758,9 @@ func init() {
 			c := ci.(*c03Case)
 			return fmt.Sprintf("%s/%s/cap%d/cw%d/tw%d/co%v/ea%v/h10%v/wf%d,%d/f%s/n%d", c.Route, c.Listener, c.Cap, len(c.Client.Writes), len(c.Target.Writes), c.Coalesce, c.Early, c.HTTP10, c.Client.WaitPeerFIN, c.Target.WaitPeerFIN, c.Fault, c.Clients)
 		},
-		Real: append([]string{"internal/martian tunnel(), bicopy, copier, drainBuffer, asCloseWriter (copy.go, close.go)", "dialvia HTTP/HTTPS/SOCKS5 dialers", "golang.org/x/net/proxy SOCKS5 client"}, realForwarder...),
-		Stub: stubCommon,
-		Rule: "cases drawn from the tape: route x link capacity (2 KiB..4 MiB) x per-endpoint write scripts (sizes around 4 KiB/32 KiB, up to ~1 MiB) x coalescing of head/reply with payload x half-close order x 1-3 concurrent tunnels x optional RST fault; schedule = seeded segmentation and interleaving of all links. Non-trivial = payload bytes flowed and no setup failure.",
+		Real:        append([]string{"internal/martian tunnel(), bicopy, copier, drainBuffer, asCloseWriter (copy.go, close.go)", "dialvia HTTP/HTTPS/SOCKS5 dialers", "golang.org/x/net/proxy SOCKS5 client"}, realForwarder...),
+		Stub:        stubCommon,
+		Rule:        "cases drawn from the tape: route x link capacity (2 KiB..4 MiB) x per-endpoint write scripts (sizes around 4 KiB/32 KiB, up to ~1 MiB) x coalescing of head/reply with payload x half-close order x 1-3 concurrent tunnels x optional RST fault; schedule = seeded segmentation and interleaving of all links. Non-trivial = payload bytes flowed and no setup failure.",
 		Assumptions: []string{"simulated time is not advanced while tunnels are healthy, so the documented 1-minute grace period after the first direction ends never cuts a still-flowing direction"},
 	})
 }
